@@ -9,6 +9,7 @@ compared with the real pipeline analyze_transactions -> classify_by_sections(par
 Comparisons whose two sides are within 1e-6 in the reference are "near boundary" and are not judged.
 """
 import ast
+import calendar
 import copy
 import statistics
 from collections import defaultdict
@@ -47,8 +48,8 @@ def gen_txns(rnd):
         cat, sub = rnd.choice(CATS)
         base = rnd.sample(TAGS, rnd.randint(0, 2))
         special = [rnd.choice(SPECIAL)] if rnd.random() < .15 else []
-        style = rnd.choice(['monthly', 'random', 'burst', 'single'])
-        n = {'monthly': rnd.randint(3, 20), 'random': rnd.randint(1, 25), 'burst': rnd.randint(2, 10), 'single': 1}[style]
+        style = rnd.choice(['monthly', 'random', 'burst', 'single'] + (['leap'] if 2024 in years else []))
+        n = {'monthly': rnd.randint(3, 20), 'random': rnd.randint(1, 25), 'burst': rnd.randint(2, 10), 'single': 1, 'leap': rnd.randint(2, 5)}[style]
         y0, m0 = rnd.choice(years), rnd.randint(1, 12)
         for k in range(n):
             if style == 'monthly':
@@ -57,8 +58,13 @@ def gen_txns(rnd):
                 d = datetime(yy, mm, rnd.choice([1, 5, 15, 28]))
             elif style == 'burst':
                 d = datetime(y0, m0, rnd.choice([3, 3, 4, 10, 20, 21]))
+            elif style == 'leap':
+                d = rnd.choice([datetime(2024, 2, 29), datetime(2024, 2, 29), datetime(2024, 2, 15), datetime(2024, 2, 22), datetime(2024, 3, 1), datetime(2024, 12, 31)])
             else:
-                d = datetime(rnd.choice(years), rnd.randint(1, 12), rnd.randint(1, 28))
+                yy, mm = rnd.choice(years), rnd.randint(1, 12)
+                d = datetime(yy, mm, rnd.randint(1, calendar.monthrange(yy, mm)[1]))       # month ends and the leap day included
+            if 2024 in years and rnd.random() < .04:
+                d = datetime(2024, 2, rnd.choice([29, 29, 15, 28]))
             amt = round(rnd.choice([1, 1, 1, 1, -1]) * rnd.choice([5, 9.99, 25, 100, 250.5, 1200, 33.33, 50]), 2)
             tags = list(base) + special + (['extra'] if rnd.random() < .1 else [])
             txns.append({'date': d, 'raw_description': name.upper(), 'description': name, 'amount': amt, 'merchant': name, 'category': cat,
@@ -113,6 +119,9 @@ class MerchantRef:
         if len(mt) < 2:
             return 0.0
         mu = sum(mt) / len(mt)
+        scale = max(abs(x) for x in mt)
+        if scale > 0 and abs(mu) <= 1e-9 * scale:
+            raise Near()        # monthly totals cancel: the mean is zero or float noise around zero, so cv is 0 or astronomically large
         if mu == 0:
             return 0.0
         return (sum((x - mu) ** 2 for x in mt) / len(mt)) ** .5 / mu
@@ -131,7 +140,7 @@ def agg(f, v):
 
 
 def ref_eval(expr, m, first, variables):
-    env = {'months': m.months(), 'total': m.total(), 'cv': m.cv(), 'category': first['category'], 'subcategory': first['subcategory'],
+    env = {'months': m.months(), 'total': m.total(), 'cv': (m.cv() if 'cv' in expr.lower() else 0.0), 'category': first['category'], 'subcategory': first['subcategory'],
            'merchant': first['merchant'], 'tags': {x.lower() for t in m.t for x in t['tags']}, 'payments': m.payments(), 'true': True, 'false': False}
 
     def ev(n):
@@ -296,6 +305,12 @@ def gen_views(rnd):
             loc.append(('undefined_local', '1'))
         f = rnd.choice(BAD_FILTERS) if rnd.random() < .12 else gfilter(rnd)
         views.append({'name': 'V%d' % i, 'locals': loc, 'filter': f})
+    if rnd.random() < .5:
+        # views with the SAME filter text and the same local variable names but other values: each is judged with its own variables
+        f = rnd.choice(['total > thr', 'months >= lim', 'total > thr and months >= 1', 'sum(payments) >= thr or lim > 100'])
+        vals = rnd.sample(['5', '100', '1000', '2', 'months', 'total / 2', '1e9'], 3)
+        for k, v in enumerate(vals[:rnd.randint(2, 3)]):
+            views.insert(rnd.randint(0, len(views)), {'name': 'Twin%d' % k, 'locals': [('thr', v), ('lim', v)], 'filter': f})
     return gl, views
 
 
